@@ -131,7 +131,7 @@ static bool eval_truth(Node *node);
 static bool is_const_expr(Node *node);
 static Node *assign(Token **rest, Token *tok);
 static Node *logor(Token **rest, Token *tok);
-static double eval_double(Node *node);
+static long double eval_double(Node *node);
 static Node *conditional(Token **rest, Token *tok);
 static Node *logand(Token **rest, Token *tok);
 static Node *bitor(Token **rest, Token *tok);
@@ -2187,7 +2187,48 @@ int64_t const_expr(Token **rest, Token *tok) {
   return eval(node);
 }
 
-static double eval_double(Node *node) {
+// Round a value to the precision of a floating type.
+static long double round_flonum(Type *ty, long double val) {
+  if (ty->kind == TY_FLOAT)
+    return (float)val;
+  if (ty->kind == TY_DOUBLE)
+    return (double)val;
+  return val;
+}
+
+// Fold + - * / of floating type. The operands have the type of the
+// node; the operation is carried out in that type so that the result
+// is rounded as it is by the generated code.
+static long double eval_flonum_binary(Node *node) {
+  long double lhs = eval_double(node->lhs);
+  long double rhs = eval_double(node->rhs);
+
+  if (node->ty->kind == TY_LDOUBLE) {
+    switch (node->kind) {
+    case ND_ADD: return lhs + rhs;
+    case ND_SUB: return lhs - rhs;
+    case ND_MUL: return lhs * rhs;
+    default: return lhs / rhs;
+    }
+  }
+
+  // A float or double operand is exact in double, and rounding the
+  // double result of one operation on floats to float gives the
+  // correctly rounded float result.
+  double x = lhs, y = rhs, val;
+  switch (node->kind) {
+  case ND_ADD: val = x + y; break;
+  case ND_SUB: val = x - y; break;
+  case ND_MUL: val = x * y; break;
+  default: val = x / y; break;
+  }
+  return round_flonum(node->ty, val);
+}
+
+// Evaluate a floating constant expression. The result has the
+// precision of node->ty, like the value computed at run time: a
+// float is rounded to float, a long double is not cut to double.
+static long double eval_double(Node *node) {
   add_type(node);
 
   if (is_integer(node->ty)) {
@@ -2198,13 +2239,10 @@ static double eval_double(Node *node) {
 
   switch (node->kind) {
   case ND_ADD:
-    return eval_double(node->lhs) + eval_double(node->rhs);
   case ND_SUB:
-    return eval_double(node->lhs) - eval_double(node->rhs);
   case ND_MUL:
-    return eval_double(node->lhs) * eval_double(node->rhs);
   case ND_DIV:
-    return eval_double(node->lhs) / eval_double(node->rhs);
+    return eval_flonum_binary(node);
   case ND_NEG:
     return -eval_double(node->lhs);
   case ND_COND:
@@ -2212,9 +2250,9 @@ static double eval_double(Node *node) {
   case ND_COMMA:
     return eval_double(node->rhs);
   case ND_CAST:
-    return eval_double(node->lhs);
+    return round_flonum(node->ty, eval_double(node->lhs));
   case ND_NUM:
-    return node->fval;
+    return round_flonum(node->ty, node->fval);
   }
 
   error_tok(node->tok, "not a compile-time constant");
